@@ -8,6 +8,7 @@ import (
 	"golang.org/x/tools/go/cfg"
 
 	"j5verif/checker/core"
+	"j5verif/checker/rules"
 )
 
 // soleParser (R-FLOW/soleparser): the range argument of the id62 contract —
@@ -136,4 +137,54 @@ func soleParser(r *core.Run) {
 		})
 	})
 	r.Analysed["string_to_uuid_functions"] = n
+}
+
+// signRejected (R-FLOW/sign): big.Int.SetString accepts a leading sign, and
+// Int.Bytes returns the magnitude only: "-1" would come out as the identifier
+// of "1". A negative value does not fit in 16 unsigned bytes, so every path of
+// parseBase62 to a nil error passes a test that the parsed number is not
+// negative (or that the text does not start with a sign).
+func signRejected(r *core.Run) {
+	r.Rule("R-FLOW/sign", "in the function of lib/id62 that parses text with (*big.Int).SetString, every return of a nil error is reached only where the parsed number is known not to be negative (X.Sign() < 0 false, X.Sign() >= 0 true) or the text is known not to start with '-': Int.Bytes drops the sign, so a negative value would alias the identifier of its magnitude")
+	pk := r.P.Pkg("lib/id62")
+	if pk == nil {
+		return
+	}
+	info := pk.TypesInfo
+	n := 0
+	core.AllFuncDecls(pk, func(fd *ast.FuncDecl) {
+		var recv string
+		var textArg string
+		ast.Inspect(fd.Body, func(x ast.Node) bool {
+			if c, ok := x.(*ast.CallExpr); ok && core.CalleeName(info, c) == "(*math/big.Int).SetString" && len(c.Args) == 2 {
+				if s, ok := c.Fun.(*ast.SelectorExpr); ok {
+					recv = core.ExprStr(s.X)
+					textArg = core.ExprStr(c.Args[0])
+				}
+			}
+			return true
+		})
+		if recv == "" {
+			return
+		}
+		ast.Inspect(fd.Body, func(x ast.Node) bool {
+			ret, ok := x.(*ast.ReturnStmt)
+			if !ok || len(ret.Results) == 0 || !core.IsNilIdent(info, ret.Results[len(ret.Results)-1]) {
+				return true
+			}
+			n++
+			o := r.Add("R-FLOW/sign", "id62."+core.FuncName(fd)+" | nil-error return", ret.Pos(), "success return of the base62 parser")
+			f := rules.FactsAt(info, fd.Body, ret)
+			switch {
+			case f.False[recv+".Sign() < 0"] || f.True[recv+".Sign() >= 0"] || f.False[recv+".Sign() == -1"] || f.True[recv+".Sign() != -1"]:
+				o.Auto("the parsed number is known not to be negative")
+			case f.False[textArg+"[0] == '-'"] || f.True[textArg+"[0] != '-'"] || f.False["strings.HasPrefix("+textArg+", \"-\")"]:
+				o.Auto("the text is known not to start with a minus sign")
+			default:
+				o.Fail("success is returned for text that big.Int.SetString read as a negative number: Bytes() drops the sign, so \"-1\" parses to the identifier of \"1\" although a negative value does not fit in 16 bytes")
+			}
+			return true
+		})
+	})
+	r.Floor("R-FLOW/sign", 1, "parseBase62")
 }
